@@ -1031,6 +1031,35 @@ Example compact_ex :
   length (ssts (s_eng ss)) = 1%nat.
 Proof. vm_compute. split; reflexivity. Qed.
 
+(* What the server sends back: a response that carries a stored value (GetResponse, TxGetResponse:
+   the value and a flag; a Scan / TxScan entry: the key and the value) is at most key + value + 14
+   bytes on the wire (two length-delimited protobuf fields: 1 tag byte and a length varint of at
+   most 5 bytes each, plus a 2-byte bool field). Every key and value the service ADMITS can be
+   sent back under the send limit cmd/kevo/server.go configures (grpc.MaxSendMsgSize, read from
+   the source on every run; None = grpc's default, MaxInt32): otherwise a value that was written
+   over the network and reads fine through the embedded API could never be read over the network. *)
+Definition sendable (n : N) : bool :=
+  match svc_server_max_send with Some m => n <=? m | None => n <=? 2147483647 end.
+Definition resp_wire_bound (k v : bytes) : N := len k + len v + 14.
+
+Lemma send_limit_covers : sendable (svc_maxKeySize + svc_maxValueSize + 14) = true.
+Proof. vm_compute. reflexivity. Qed.
+
+Theorem admitted_values_can_be_sent : forall k v,
+  valid_key code_limits k = true -> valid_val code_limits v = true ->
+  sendable (resp_wire_bound k v) = true.
+Proof.
+  intros k v Hk Hv. generalize send_limit_covers. unfold sendable, resp_wire_bound.
+  unfold valid_key, valid_val in *. cbn [max_key max_val code_limits] in *.
+  apply andb_prop in Hk as [_ Hk]. apply N.leb_le in Hk. apply N.leb_le in Hv.
+  destruct svc_server_max_send as [m|]; intros H; apply N.leb_le in H; apply N.leb_le; lia.
+Qed.
+
+Example admitted_values_can_be_sent_ex :
+  valid_key code_limits (repeat 1 4096) = true /\ sendable (resp_wire_bound [107] [1;2;3]) = true /\
+  sendable (svc_maxKeySize + svc_maxValueSize + 14) = true /\ sendable 4294967296 = false.
+Proof. vm_compute. repeat split; reflexivity. Qed.
+
 (* The two deviations the check found on the tree it was built against, as statements about the
    code of that tree (regression notes: the corpus cases transport-limit.case and
    compact-marker.case fail again when a fix is reverted). *)
